@@ -200,3 +200,57 @@ func ZZ_C10_H1() {
 	zz.Assert("counted-connections-are-open-idle-and-within-maxconns", boundOK)
 	zz.Assert("unsafe-request-sent-at-most-once", onceOK)
 }
+
+// ZZ_C10_H2: the wait-for-a-free-connection path, sequentially. With MaxConns = 1 and
+// MaxConnWaitTimeout > 0, a first call in streaming mode keeps the only connection busy (its
+// body stream is still open); a second call has to queue, its wait times out (the only event
+// that can happen), and it must leave no waiter behind; when the first body stream is closed the
+// connection goes back to the idle pool and a third call reuses it.
+func ZZ_C10_H2() {
+	d := &zzDialer{}
+	cur, curMarker := zzOK, byte('0')
+	d.script = func() (int, byte) { return cur, curMarker }
+	c := NewHostClient(&ClientOptions{Dialer: d, MaxConns: 1, MaxConnWaitTimeout: time.Second, ResponseBodyStream: true}).(*HostClient)
+	c.Addr = "h:80"
+	closeFirst := zz.Choose("closeFirstBeforeSecond", 2) == 1
+	var req1, req2, req3 protocol.Request
+	var resp1, resp2, resp3 protocol.Response
+	req1.SetRequestURI("http://h/1")
+	req2.SetRequestURI("http://h/2")
+	req3.SetRequestURI("http://h/3")
+	err1 := c.Do(&zzCtx{}, &req1, &resp1)
+	zz.Assert("first-call-succeeds", err1 == nil && resp1.IsBodyStream())
+	if err1 != nil || !resp1.IsBodyStream() {
+		return
+	}
+	zz.Assert("connection-busy-while-stream-open", c.connsCount == 1 && len(c.conns) == 0)
+	if closeFirst {
+		resp1.CloseBodyStream() //nolint:errcheck
+	}
+	curMarker = '1'
+	if closeFirst {
+		d.conns[0].In = append(d.conns[0].In, zzPeerBytes(zzOK, '1')...)
+	}
+	err2 := c.Do(&zzCtx{}, &req2, &resp2)
+	zz.Cover("reached-assert", true)
+	if closeFirst {
+		zz.Assert("second-call-reuses-the-released-connection", err2 == nil && len(d.conns) == 1)
+		resp2.CloseBodyStream() //nolint:errcheck
+	} else {
+		zz.Cover("waited-and-timed-out", err2 != nil)
+		zz.Assert("second-call-fails-when-no-connection-frees-up", err2 != nil && len(d.conns) == 1)
+		zz.Assert("count-still-within-maxconns", c.connsCount == 1)
+		zz.Assert("no-waiter-left-waiting", c.WantConnectionCount() == 0 || !c.connsWait.peekFront().waiting())
+		resp1.CloseBodyStream() //nolint:errcheck
+	}
+	zz.Assert("connection-idle-after-streams-closed", c.connsCount == 1 && len(c.conns) == 1 && d.conns[0].Closed == 0)
+	curMarker = '2'
+	d.conns[0].In = append(d.conns[0].In, zzPeerBytes(zzOK, '2')...)
+	err3 := c.Do(&zzCtx{}, &req3, &resp3)
+	zz.Assert("third-call-reuses-the-idle-connection", err3 == nil && len(d.conns) == 1)
+	if err3 == nil {
+		b, _ := resp3.BodyE()
+		zz.Assert("third-response-is-its-own", len(b) == 2 && b[1] == '2')
+	}
+	zz.Assert("pending-gauge-zero", c.PendingRequests() == 0)
+}
